@@ -12,6 +12,7 @@
 #include <amgcl/coarsening/smoothed_aggregation.hpp>
 #include <amgcl/coarsening/ruge_stuben.hpp>
 #include <amgcl/relaxation/spai0.hpp>
+#include <amgcl/relaxation/damped_jacobi.hpp>
 #include <amgcl/relaxation/ilu0.hpp>
 #include <amgcl/relaxation/gauss_seidel.hpp>
 #include <amgcl/relaxation/chebyshev.hpp>
@@ -235,6 +236,11 @@ static std::vector<std::pair<std::string, factory>> kinds() {
     { idrs<B>::params p; p.s = 4; p.replacement = true; v.push_back({"idrs-replacement", K<idrs<B>, AMG1>(p)}); }
     { gmres<B>::params p; p.M = 3; p.pside = amgcl::preconditioner::side::left; v.push_back({"gmres-left", K<gmres<B>, AMG1>(p)}); }
     { lgmres<B>::params p; p.M = 2; p.K = 3; p.pside = amgcl::preconditioner::side::left; v.push_back({"lgmres-left", K<lgmres<B>, AMG1>(p)}); }
+    // one-sweep preconditioners whose apply() is a single backend primitive writing into the solver's persistent scratch
+    // (z[j] of FGMRES, v[j+1] of left-preconditioned GMRES): what a failed call left there must not reach the next call
+    { fgmres<B>::params p; p.M = 3; v.push_back({"fgmres-spai0", K<fgmres<B>, amgcl::relaxation::as_preconditioner<B, amgcl::relaxation::spai0>>(p)}); }
+    { fgmres<B>::params p; p.M = 4; v.push_back({"fgmres-damped_jacobi", K<fgmres<B>, amgcl::relaxation::as_preconditioner<B, amgcl::relaxation::damped_jacobi>>(p)}); }
+    { gmres<B>::params p; p.M = 3; p.pside = amgcl::preconditioner::side::left; v.push_back({"gmres-left-spai0", K<gmres<B>, amgcl::relaxation::as_preconditioner<B, amgcl::relaxation::spai0>>(p)}); }
     // (ns_search = true is left out on purpose: it is documented to ignore the trivial solution of a zero right-hand side)
     // a complete inner solver used as the preconditioner (make_solver::apply clears its output and runs the inner iteration)
     { typedef amgcl::make_solver<AMG1, bicgstab<B>> INNER; fgmres<B>::params p; p.M = 4;
